@@ -37,11 +37,12 @@ fn atto(n: i64) -> TokenAmount {
     TokenAmount::from_atto(n)
 }
 
-fn setup(deposit: i64) -> Chan {
+fn setup(deposit: i64, key_form: bool) -> Chan {
     let w = World::new(true);
     let accts = w.create_accounts(3, 4242, &TokenAmount::from_whole(1000));
     let (from, to, stranger) = (accts[0], accts[1], accts[2]);
-    let ctor = ConstructorParams { from: from.0, to: to.0 };
+    // the parties may be named by their key addresses at construction (the actor resolves and stores ids)
+    let ctor = if key_form { ConstructorParams { from: from.1, to: to.1 } } else { ConstructorParams { from: from.0, to: to.0 } };
     let r = w.apply(
         &from.0,
         &INIT_ACTOR_ADDR,
@@ -484,7 +485,7 @@ pub fn run_as(cfg: &RunCfg, prop: &'static str, fixed_seqs: Option<u64>) -> Repo
     'seqs: for seq in seqs {
         let mut r = seq_rng(cfg.seed, seq);
         let deposit = r.range(0, 1000);
-        let c = setup(deposit);
+        let c = setup(deposit, seq % 2 == 1);
         let mut epoch: i64 = r.range(0, 20);
         c.w.vm.set_epoch(epoch);
         let mut lines: Vec<String> = vec![];
